@@ -17,11 +17,12 @@ def main(tier, seed):
     items += [it for it in fam_ops.fault_family(seed, tier) if it.meta['family'].startswith(('fault:idx', 'fault:vla'))][::2 if quick else 1]
     gen = families.generated(seed + 4, 25 if quick else 300, feat={'faults': 0.2}, inputs=2, family='gen4')
     items += gen
-    # random programs at their minimum stack and one word below
-    for it in gen[::6 if quick else 3]:
+    # random programs at every stack size from their minimum down to several words below
+    for it in gen[::5 if quick else 2]:
         m = families.min_stack(it.src, it.args)
         if m:
-            for s in (m, m - 1, max(1, m - 3)):
+            # a guard that is too small by k bytes shows in a window of k bytes below the minimum (finding F11)
+            for s in range(max(1, m - (6 if quick else 12)), m + 1):
                 items.append(families.runner.Item(it.key + ('s', s), it.src, it.args, w=2, s=s,
                                                   meta=dict(it.meta, family=it.meta['family'] + ':tight', allow_exhausted='prefix')))
     tr = tracker_replay.run(tier, seed)
